@@ -393,50 +393,67 @@ func forallBefore(f *chk.Fn, g *chk.Graph, rs *ast.RangeStmt, phi chk.Guard, sit
 		}
 		why = append(why, "exit idiom: the result does not lie behind the exhaustion of the loop")
 	}
-	// flag idiom
-	flags := map[types.Object]bool{}
+	// flag idiom: a boolean that is cleared (F = false), or an error / pointer that is set (F = non-nil), when the check fails
+	type flagKind struct{ cleared, required chk.Guard }
+	flags := map[types.Object]bool{} // value: true for the nil-able kind
 	ast.Inspect(rs.Body, func(n ast.Node) bool {
-		if as, ok := n.(*ast.AssignStmt); ok && len(as.Lhs) == 1 && len(as.Rhs) == 1 && as.Tok == token.ASSIGN && f.IsConstBool(as.Rhs[0], false) {
-			if id, ok := as.Lhs[0].(*ast.Ident); ok {
-				if o := f.ObjOf(id); o != nil {
-					flags[o] = true
+		if as, ok := n.(*ast.AssignStmt); ok && len(as.Lhs) == len(as.Rhs) && as.Tok == token.ASSIGN {
+			for i, l := range as.Lhs {
+				if id, ok := l.(*ast.Ident); ok {
+					if o := f.ObjOf(id); o != nil {
+						switch {
+						case f.IsConstBool(as.Rhs[i], false):
+							flags[o] = false
+						case f.KnownNonNil(as.Rhs[i]):
+							flags[o] = true
+						}
+					}
 				}
 			}
 		}
 		return true
 	})
-	for fl := range flags {
+	for fl, nilable := range flags {
 		isF := f.IsObj(fl)
-		setTrue := false
+		kind := flagKind{cleared: chk.GBool(false, isF), required: chk.GBool(true, isF)}
+		if nilable {
+			kind = flagKind{cleared: g.GExprNil(false, isF), required: g.GExprNil(true, isF)}
+		}
+		setBack := false
 		ast.Inspect(rs.Body, func(n ast.Node) bool {
 			if as, ok := n.(*ast.AssignStmt); ok {
 				for i, l := range as.Lhs {
-					if isF(l) && !(i < len(as.Rhs) && len(as.Lhs) == len(as.Rhs) && f.IsConstBool(as.Rhs[i], false)) {
-						setTrue = true
+					if !isF(l) {
+						continue
+					}
+					clearing := i < len(as.Rhs) && len(as.Lhs) == len(as.Rhs) &&
+						((!nilable && f.IsConstBool(as.Rhs[i], false)) || (nilable && f.KnownNonNil(as.Rhs[i])))
+					if !clearing {
+						setBack = true
 					}
 				}
 			}
 			return true
 		})
-		if setTrue {
+		if setBack {
 			why = append(why, "flag idiom: "+fl.Name()+" can be set back inside the loop")
 			continue
 		}
-		if !g.LoopEntryDominated(rs, chk.GBool(true, isF)) {
-			why = append(why, "flag idiom: "+fl.Name()+" is not known to be true when the loop starts")
+		if !g.LoopEntryDominated(rs, kind.required) {
+			why = append(why, "flag idiom: "+fl.Name()+" is not known to be in its initial state when the loop starts")
 			continue
 		}
 		ok := true
-		for _, e := range g.LoopIteration(rs, chk.GOr(phi, chk.GBool(false, isF))) {
+		for _, e := range g.LoopIteration(rs, chk.GOr(phi, kind.cleared)) {
 			if !e.OK {
 				ok = false
-				why = append(why, "flag idiom: an iteration can end without the check and without clearing "+fl.Name()+" (through "+f.Prog.Rel(endPos(e, rs))+")")
+				why = append(why, "flag idiom: an iteration can end without the check and without marking "+fl.Name()+" (through "+f.Prog.Rel(endPos(e, rs))+")")
 			}
 		}
 		if !ok {
 			continue
 		}
-		if !g.Dominated(site, chk.GBool(true, isF)) {
+		if !g.Dominated(site, kind.required) {
 			why = append(why, "flag idiom: the result does not require "+fl.Name())
 			continue
 		}
